@@ -39,7 +39,7 @@ pub fn reason_class(r: &str) -> String {
     }
 }
 
-/// verdicts of the five document entry points; Err(panic) if any of them panicked
+/// verdicts of the document entry points; Err(panic) if any of them panicked
 pub fn entry_verdicts(bytes: &[u8]) -> Result<Vec<(&'static str, Option<bool>)>, (String, String)> {
     let text = std::str::from_utf8(bytes).ok();
     guarded(|| {
@@ -49,6 +49,18 @@ pub fn entry_verdicts(bytes: &[u8]) -> Result<Vec<(&'static str, Option<bool>)>,
         v.push(("toml::from_str::<Table>", text.map(|t| toml::from_str::<toml::Table>(t).is_ok())));
         v.push(("toml_edit::de::from_str::<Table>", text.map(|t| toml_edit::de::from_str::<toml::Table>(t).is_ok())));
         v.push(("toml_edit::de::from_slice::<Table>", Some(toml_edit::de::from_slice::<toml::Table>(bytes).is_ok())));
+        // the same verdict through the other doors: FromStr of toml's own types, a deserializer built
+        // by FromStr, and targets that throw the content away
+        v.push(("toml::Value::from_str", text.map(|t| toml::Value::from_str(t).is_ok())));
+        v.push(("toml::Table::from_str", text.map(|t| toml::Table::from_str(t).is_ok())));
+        v.push(("toml::from_str::<Value>", text.map(|t| toml::from_str::<toml::Value>(t).is_ok())));
+        v.push(("toml::from_str::<IgnoredAny>", text.map(|t| toml::from_str::<serde::de::IgnoredAny>(t).is_ok())));
+        v.push(("toml_edit::de::from_str::<IgnoredAny>", text.map(|t| toml_edit::de::from_str::<serde::de::IgnoredAny>(t).is_ok())));
+        v.push((
+            "str::parse::<toml_edit::de::Deserializer>",
+            text.map(|t| t.parse::<toml_edit::de::Deserializer>().map_err(|_| ()).and_then(|d| <toml::Table as serde::Deserialize>::deserialize(d).map_err(|_| ())).is_ok()),
+        ));
+        v.push(("toml_edit::de::Deserializer::parse", text.map(|t| toml_edit::de::Deserializer::parse(t).map_err(|_| ()).and_then(|d| <toml::Table as serde::Deserialize>::deserialize(d).map_err(|_| ())).is_ok())));
         v
     })
 }
